@@ -12,6 +12,7 @@ import Driver.C19
 import Driver.C16
 import Driver.C17
 import Driver.C11
+import Driver.C15
 open Lean Driver
 
 def dispatch (j : Json) : R Json := do
@@ -32,6 +33,7 @@ def dispatch (j : Json) : R Json := do
   | "C16" => Driver.C16.handle op j
   | "C17" => Driver.C17.handle op j
   | "C11" => Driver.C11.handle op j
+  | "C15" => Driver.C15.handle op j
   | _ => throw s!"unknown property {p}"
 
 partial def loop (h : IO.FS.Stream) (out : IO.FS.Stream) : IO Unit := do
